@@ -792,6 +792,11 @@ class Blockwise(ArrayExpr):
                 if first is None:
                     block_ranges.append((0, -1))  # Empty
                     output_adjustments.append(slice(0, 0))
+                elif last < first:
+                    # Empty selection inside the axis: there is no block range
+                    # to keep, and the adjusted chunks of the emptied input
+                    # would not be empty.  Leave the slice above this node.
+                    return None
                 else:
                     block_ranges.append((first, last))
                     coarse_start = int(cumsum[first])
